@@ -172,7 +172,7 @@ pub fn urlrec(u: &Url) -> String {
         Some(url::Host::Domain(_)) => 0,
         Some(url::Host::Ipv4(_)) => 1,
         Some(url::Host::Ipv6(_)) => 2,
-        None => 0,
+        None => 9,
     };
     let opt = |o: Option<&str>| o.map(|s| hex_or_dash(s.as_bytes())).unwrap_or("~".into());
     format!(
@@ -199,13 +199,9 @@ pub fn resolve(loc: &[u8], base: &Url) -> Option<Url> {
         Err(url::ParseError::RelativeUrlWithoutBase) => base.join(&loc).ok(),
         Err(_) => None,
     }?;
-    // a target the client cannot dial (neither http nor https) is unusable: the model's `resolved`
-    // is `none` for it (the code reports it one step later, as InvalidBaseUrl, without dialling)
-    if u.scheme() == "http" || u.scheme() == "https" {
-        Some(u)
-    } else {
-        None
-    }
+    // a target the client cannot dial (no host, no known port, neither http nor https) is given to
+    // the model as it is: `undialable` there says which error the next turn of the loop ends with
+    Some(u)
 }
 
 fn step_op(s: &Step) -> String {
